@@ -69,6 +69,10 @@ def payload_spec(kind, msg_no, opts):
         return {"image": d}
     if kind == "location":
         d = {"degrees_latitude": 52.5 + msg_no / 1000.0, "degrees_longitude": 13.25}
+        if opts.get("pad") == 3:
+            # a place on the equator and the prime meridian, heading due north, standing still: zero is a value like any other
+            d = {"degrees_latitude": 0.0, "degrees_longitude": 0.0, "accuracy_in_meters": 0, "speed_in_mps": 0.0,
+                 "degrees_clockwise_from_magnetic_north": 0}
         if opts.get("a"):
             d.update(name=mk("name"), address=mk("addr"), url="http://maps/" + mk("url"))
         if opts.get("b"):
@@ -735,3 +739,5 @@ def plan(tier):
         "budget_s": 200 if quick else 2400,
         "hard_limit_s": 600 if quick else 3600,
     }
+
+RULE += (' Corruption also as a chosen bit pattern at a chosen position (xor), incl. version-byte patterns; a zero-valued location (equator / prime meridian / heading 0); `burst`: more than 100 acknowledged messages of one sender before a damaged one; presence of explicitly set zero / empty values is compared strictly.')
